@@ -209,11 +209,15 @@ def concrete_fast(kind, rnd):
 
 def check_fast_paths(rep, prop, tier):
     """djnz_fast / ldir_fast: relational contract 'equal to iterating the plain
-    closure'. The loop of ldir_fast needs a quantified array invariant that is
-    not attempted (DESIGN.md risk register): bounded stand-in, never counted as proved."""
-    n = 300 if tier == "quick" else 1500
+    closure'. P: djnz_fast by induction on the iteration count, ldir_fast by an
+    inductive loop invariant (the local state is the ISA state after `count`
+    iterations). The concrete differential below is kept as a cross-check of the
+    contracts themselves (bounded, not counted)."""
+    n = 100 if tier == "quick" else 1500
     rnd = random.Random('fast/%d' % __import__('props.common', fromlist=['x']).seed())
-    for kind, fname in (('djnz', 'skoolkit.simulator.Simulator.djnz_fast'), ('ldir', 'skoolkit.simulator.Simulator.ldir_fast[inc=1]'),
+    check_djnz_fast(rep, prop)
+    check_ldir_fast(rep, prop)
+    for kind, fname in (('ldir', 'skoolkit.simulator.Simulator.ldir_fast[inc=1]'),
                         ('lddr', 'skoolkit.simulator.Simulator.ldir_fast[inc=-1]')):
         bad = None
         for k in range(n):
@@ -316,3 +320,224 @@ def replay_iff(vals, kind):
     if not 0 <= f <= 255:
         d.append(('F after LD A,I', f))
     return {'case': {'z80 header byte 27': v}, 'diffs': d}
+
+
+# ------------------------------------------------------------ djnz_fast (P, by induction)
+def check_djnz_fast(rep, prop):
+    """djnz_fast == iterating the plain DJNZ closure: for IFF == 0 and offset 0xFE
+    (DJNZ to itself) the closed form after n = ((B-1) & 255) + 1 iterations;
+    otherwise exactly the plain step."""
+    import time
+    from skoolkit.simulator import Simulator
+    from pyvc.solve import check_sat
+    W = poly.W
+    name = 'skoolkit.simulator.Simulator.djnz_fast'
+    sim = Simulator([0] * 65536, config={'fast_djnz': True})
+    func = sim.opcodes[0x10]
+    tabreg = simvc.get_machine('Simulator', 48).tabreg
+
+    def closed(regs, n):
+        r = list(regs)
+        r[Z.B] = 0
+        r[Z.R] = (regs[Z.R] & 0x80) | ((regs[Z.R] + n) & 0x7F)
+        r[Z.T] = regs[Z.T] + 13 * (n - 1) + 8
+        r[Z.PC] = (regs[Z.PC] + 2) & 0xFFFF
+        return r
+
+    # --- induction over the ISA contract of DJNZ (spec level)
+    facts, defs = [], []
+    old = poly.set_collectors(facts, defs)
+    try:
+        regs = simvc.initial_regs()
+        pre = simvc.wf_pre(regs)
+        arr = z3.Array('mem', z3.BitVecSort(W), z3.BitVecSort(W))
+        pc = regs[Z.PC]
+        facts.append(z3.Select(arr, sv((pc + 1) & 0xFFFF).t) == 0xFE)
+        n = ((regs[Z.B] - 1) & 255) + 1
+        k = SV(z3.BitVec('k', W), 0, 255)
+        facts.append(z3.And(k.t >= 0, k.t < sv(n).t))
+
+        def state_k(kk):
+            s = list(regs)
+            s[Z.B] = (regs[Z.B] - kk) & 255
+            s[Z.R] = (regs[Z.R] & 0x80) | ((regs[Z.R] + kk) & 0x7F)
+            s[Z.T] = regs[Z.T] + 13 * kk
+            return s
+        m1 = simvc.SpecSymMem(arr, facts)
+        s1 = Z.Step('', 0x10, state_k(k), m1, Z.Cfg(machine=48))
+        last = cmpop('==', k + 1, n)
+        nxt = state_k(k + 1)
+        cf = closed(regs, n)
+        step_ok = and_(*[cmpop('==', s1.r[i], nxt[i]) for i in range(30)], SB(m1.arr == arr))
+        final_ok = and_(*[cmpop('==', s1.r[i], cf[i]) for i in range(30)], SB(m1.arr == arr))
+        for oname, cond in (('step', or_(last, step_ok)), ('final', or_(not_(last), final_ok))):
+            ts = time.time()
+            r, backend, model = check_sat(pre + facts + [z3.Not(poly.bterm(cond))])
+            rep.add('%s/lemma.djnz_iterated/%s' % (prop, oname), 'proved' if r == 'unsat' else ('failed' if r == 'sat' else 'unknown'), backend, time.time() - ts, name)
+            if r == 'sat':
+                rep.errors.append('djnz induction %s fails: closed form of the contract is wrong' % oname)
+    finally:
+        poly.set_collectors(*old)
+
+    # --- the real closure against the closed form / the plain step
+    def start(eng):
+        p = eng.path
+        regs = simvc.initial_regs()
+        p.regs0 = list(regs)
+        p.reglist = SymList(regs, 'registers')
+        p.mem = SymMem('mem')
+        eng.objmap = dict(tabreg)
+        eng.objmap[id(sim.registers)] = p.reglist
+        eng.objmap[id(sim.memory)] = p.mem
+        eng.call_function(func, [])
+
+    def post(p, prove):
+        regs = p.reglist.items
+        r0 = p.regs0
+        smem = simvc.SpecSymMem(p.mem.arr0, poly._facts)
+        hit = and_(r0[Z.IFF] == 0, smem.rd((r0[Z.PC] + 1) & 0xFFFF) == 0xFE)
+        n = ((r0[Z.B] - 1) & 255) + 1
+        cf = closed(r0, n)
+        plain = Z.Step('', 0x10, r0, simvc.SpecSymMem(p.mem.arr0, poly._facts), Z.Cfg(machine=48))
+        for i in range(30):
+            prove('post.' + Z.REGNAMES[i], cmpop('==', regs[i], ite(hit, cf[i], plain.r[i])))
+        prove('post.mem', p.mem.arr.eq(p.mem.arr0))
+        prove('t_mono', cmpop('>=', regs[Z.T], r0[Z.T]))
+    eng = simvc.SimEngine(inline_ok=lambda f: f.__module__ == 'skoolkit.simulator')
+
+    def replayer(vals, kind):
+        rnd = random.Random(0)
+        regs = [vals.get('r%d' % i, 0) for i in range(30)]
+        for k in range(50):
+            d = concrete_fast('djnz', rnd)
+            if d:
+                return {'case': {'regs': regs}, 'diffs': d}
+        return {'case': {'regs': regs}, 'diffs': []}
+    FuncVC(rep, prop, Simulator.djnz_fast, name, eng, pre=lambda p: simvc.wf_pre(p.regs0)).run(start, post, replayer)
+
+
+# ------------------------------------------------------------ ldir_fast (P, loop invariant)
+def check_ldir_fast(rep, prop):
+    """ldir_fast (inc = +1 / -1) == `count` >= 1 iterations of the plain LDIR/LDDR
+    step, where count is whatever the loop performed.  Inductive invariant: at the
+    loop head the local state (memory, bc, de, hl, count) *is* the ISA state after
+    `count` iterations (registers that the loop does not touch are functions of
+    count: R = r_inc(R0, 2 count), T = T0 + 21 count, F = flags of a repeating
+    iteration), and the two instruction bytes at PC are intact."""
+    import ast
+    from skoolkit.simulator import Simulator
+    from pyvc.engine import func_ast, PathEnd, _Break
+    from pyvc.loops import assigned_names
+    W = poly.W
+    for inc, op in ((1, 0xB0), (-1, 0xB8)):
+        name = 'skoolkit.simulator.Simulator.ldir_fast[inc=%d]' % inc
+        sim = Simulator([0] * 65536, config={'fast_ldir': True})
+        func = sim.after_ED[op]
+        tabreg = simvc.get_machine('Simulator', 48).tabreg
+        node, _ = func_ast(func)
+        loops = [n for n in ast.walk(node) if isinstance(n, ast.While)]
+        q = func.__qualname__
+
+        def spec_regs(r0, bc, de, hl, count, f):
+            r = list(r0)
+            r[Z.B], r[Z.C] = bc >> 8, bc & 255
+            r[Z.D], r[Z.E] = de >> 8, de & 255
+            r[Z.H], r[Z.L] = hl >> 8, hl & 255
+            r[Z.R] = (r0[Z.R] & 0x80) | ((r0[Z.R] + 2 * count) & 0x7F)
+            r[Z.T] = r0[Z.T] + 21 * count
+            r[Z.F] = f
+            return r
+
+        def start(eng, inc=inc, op=op):
+            p = eng.path
+            regs = simvc.initial_regs()
+            p.regs0 = list(regs)
+            p.reglist = SymList(regs, 'registers')
+            p.mem = SymMem('mem')
+            eng.objmap = dict(tabreg)
+            eng.objmap[id(sim.registers)] = p.reglist
+            eng.objmap[id(sim.memory)] = p.mem
+            r0 = p.regs0
+            pc = r0[Z.PC]
+            p.hit = r0[Z.IFF] == 0
+
+            def loop(e, node_):
+                fr = e.frames[-1]
+                # --- establish: count == 0, locals are the pre-state
+                bc0 = r0[Z.C] + 256 * r0[Z.B]
+                de0 = r0[Z.E] + 256 * r0[Z.D]
+                hl0 = r0[Z.L] + 256 * r0[Z.H]
+                e.oblige('inv.establish', and_(cmpop('==', fr.loc['count'], 0), cmpop('==', fr.loc['bc'], bc0), cmpop('==', fr.loc['de'], de0),
+                                              cmpop('==', fr.loc['hl'], hl0), p.mem.arr.eq(p.mem.arr0)), node_)
+                # --- havoc: arbitrary state after `count` iterations
+                bc = e.fresh('bc', 0, 65535)
+                de = e.fresh('de', 0, 65535)
+                hl = e.fresh('hl', 0, 65535)
+                count = e.fresh('count', 0, 65536)
+                fk = e.fresh('Fk', 0, 255)
+                arr = z3.Array('mem_k', z3.BitVecSort(W), z3.BitVecSort(W))
+                p.mem.arr = arr
+                fr.loc.update({'bc': bc, 'de': de, 'hl': hl, 'count': count, 'repeat': True})
+                # F after count >= 1 repeating iterations keeps S, Z, C of the original F
+                e.assume(cmpop('==', fk & 0xC1, r0[Z.F] & 0xC1))
+                e.fresh_n += 1
+                more = SB(z3.Bool('iterate!%d' % e.fresh_n))
+                if e.decide(more):
+                    e.exec_block(node_.body)
+                    # one ISA step from the ghost state
+                    sk = spec_regs(r0, bc, de, hl, count, fk)
+                    smem = simvc.SpecSymMem(arr, e.path.facts)
+                    st = Z.Step('ED', op, sk, smem, Z.Cfg(machine=48))
+                    bc2, de2, hl2, c2 = fr.loc['bc'], fr.loc['de'], fr.loc['hl'], fr.loc['count']
+                    e.oblige('inv.preserve.count', cmpop('==', c2, count + 1), node_)
+                    e.oblige('inv.preserve.bc', cmpop('==', bc2, st.r[Z.C] + 256 * st.r[Z.B]), node_)
+                    e.oblige('inv.preserve.de', cmpop('==', de2, st.r[Z.E] + 256 * st.r[Z.D]), node_)
+                    e.oblige('inv.preserve.hl', cmpop('==', hl2, st.r[Z.L] + 256 * st.r[Z.H]), node_)
+                    e.oblige('inv.preserve.mem', SB(p.mem.arr == smem.arr), node_)
+                    rep_again = truth(fr.loc['repeat'])
+                    # the code goes on iterating only while the ISA step repeats (PC stays) and the instruction bytes are intact
+                    e.oblige('inv.preserve.repeat_implies_isa_repeats', or_(not_(rep_again), cmpop('==', st.r[Z.PC], pc)), node_)
+                    wrote_op = and_(cmpop('>', de, 0x3FFF), or_(cmpop('==', de, pc), cmpop('==', de, (pc + 1) & 0xFFFF)))
+                    e.oblige('inv.preserve.opcode_intact_or_stop', or_(not_(rep_again), not_(wrote_op)), node_)
+                    raise PathEnd()
+                # --- exit: the state after the last performed iteration: count >= 1, and the last iteration either
+                #     exhausted BC or wrote over the instruction
+                e.assume(cmpop('>=', count, 1))
+                p.ghost = (bc, de, hl, count, fk, arr)
+            eng.loop_invariants = {(q, 0): loop}
+            eng.call_function(func, [])
+
+        def post(p, prove, inc=inc, op=op):
+            regs = p.reglist.items
+            r0 = p.regs0
+            if not hasattr(p, 'ghost'):
+                # IFF set: exactly the plain step
+                plain = Z.Step('ED', op, r0, simvc.SpecSymMem(p.mem.arr0, poly._facts), Z.Cfg(machine=48))
+                for i in range(30):
+                    g, e_ = regs[i], plain.r[i]
+                    if i == Z.F:
+                        g, e_ = g & 0xD7, e_ & 0xD7
+                    prove('post.plain.' + Z.REGNAMES[i], cmpop('==', g, e_))
+                return
+            bc, de, hl, count, fk, arr = p.ghost
+            # final registers == ISA state after `count` iterations, the last of which is described by (bc == 0)
+            done = cmpop('==', bc, 0)
+            exp = spec_regs(r0, bc, de, hl, count, 0)
+            exp[Z.T] = r0[Z.T] + 21 * count - ite(done, 5, 0)
+            exp[Z.PC] = ite(done, (r0[Z.PC] + 2) & 0xFFFF, r0[Z.PC])
+            for i in range(30):
+                if i == Z.F:
+                    prove('post.F', cmpop('==', regs[i] & 0xD7, (r0[Z.F] & 0xC1) | ite(done, 0, 4)))
+                else:
+                    prove('post.' + Z.REGNAMES[i], cmpop('==', regs[i], exp[i]))
+            prove('post.mem', SB(p.mem.arr == arr))
+        eng = simvc.SimEngine(inline_ok=lambda f: f.__module__ == 'skoolkit.simulator')
+
+        def replayer(vals, kind, inc=inc):
+            rnd = random.Random(1)
+            for k in range(400):
+                d = concrete_fast('ldir' if inc == 1 else 'lddr', rnd)
+                if d:
+                    return {'case': {'kind': 'ldir' if inc == 1 else 'lddr'}, 'diffs': d}
+            return {'case': {}, 'diffs': []}
+        FuncVC(rep, prop, Simulator.ldir_fast, name, eng, pre=lambda p: simvc.wf_pre(p.regs0)).run(start, post, replayer)
